@@ -186,6 +186,8 @@ def multichan_fmt(idmap):
             return "Cr"
         if n == "drop_stream":
             return "Dp(%d)" % sid(o["s"])
+        if n == "close":
+            return "Cl"
         raise ToolError("multichan_fmt: no TLA+ form for op %s" % n)
     return fmt
 
